@@ -1,0 +1,8 @@
+//go:build verif
+
+package vigil
+
+import "sync/atomic"
+
+// Count returns the raw operation counter of a vigil created by New (harness use only).
+func Count(v Vigil) int64 { return atomic.LoadInt64(&v.(*vigil).vigils) }
